@@ -232,6 +232,14 @@ def untracked_one_sided(w):
     return out
 
 
+def dangling_key(w, op, err, d):
+    """canonical key of a dangling reference: one key for the family 'a collection assignment whose cascade deleted an item that was to stay'"""
+    p, key, q = d
+    if op['k'] in ('setColl', 'setMany') and err is None and p == op.get('o') and w.side(key)['coll'] and w.side(key)['casc']:
+        return 'dangling:assign-collection-cascade-kills-kept-item'
+    return 'dangling:%s/%s' % (op['k'], err or 'ok')
+
+
 def dangling(w, snap):
     return [(p, key, q) for p, so in enumerate(snap) if so['alive'] for key in w.ent_attrs[so['ent']]
             for q in held(so, key) if 0 <= q < len(snap) and not snap[q]['alive']]
@@ -477,7 +485,7 @@ def memory_phase(ctx, rng, nhist, nops):
                     ctx.count('live-object-references-deleted-object' + (':a-deleted-object-was-passed-as-value' if dead_operand else ''))
                     if not dead_operand:
                         ctx.violation('a live object references a deleted object although no deleted object was passed to any call',
-                                      {'schema': schema, 'ops': ops + [op]}, observed=dangling(w, snap)[0], key='dangling:%s/%s' % (op['k'], err or 'ok'))
+                                      {'schema': schema, 'ops': ops + [op]}, observed=dangling(w, snap)[0], key=dangling_key(w, op, err, dangling(w, snap)[0]))
                         violated = True; break
                 if count_mismatch(w): ctx.count('observation-for-C10:SetData.count-differs-from-len')
                 if err is not None and (err not in MODEL_ERRS or op['k'] == 'setMany'):
@@ -817,6 +825,11 @@ def check_fixed(ctx, schema, ops, kind):
                 ctx.violation('the session holds an object no call returned (left by a failed call) whose relationship value does not know it',
                               {'schema': schema, 'ops': ops[:i + 1]}, observed=zs[0], key='untracked-object-one-sided:%s/%s' % (op['k'], err or 'ok'))
                 stop = True; break
+            dg = dangling(w, snap) if 'dead' not in kind else []
+            if dg:
+                ctx.violation('a live object references a deleted object although no deleted object was passed to any call',
+                              {'schema': schema, 'ops': ops[:i + 1]}, observed=list(dg[0]), key=dangling_key(w, op, err, dg[0]))
+                stop = True; break
             bad = ends_disagree(w, snap)
             if bad:
                 p, key, q, why = bad[0]
@@ -926,6 +939,28 @@ def directed_pk_phase(ctx, rng, n):
         check_fixed(ctx, schema, ops, 'pk-' + how)
 
 
+def directed_cascade_phase(ctx, rng, n):
+    """collection assignment / remove on a cascade collection whose items are linked among each other by another cascade
+    relation: the cascade of a removed item may delete an item that was to stay"""
+    for _ in range(n):
+        schema = {'nent': 2, 'rels': [
+            {'kind': 'm2o', 'sym': False, 'a': S(0, coll=True, casc=True), 'b': S(1)},
+            {'kind': 'm2o', 'sym': False, 'a': S(1, coll=True, casc=rng.choice([True, True, None])), 'b': S(1)}]}
+        k = rng.choice([2, 3, 4])
+        ops = [{'k': 'create', 'e': 0, 'vals': [], 'tag': 0}]
+        for j in range(k):
+            vals = [[[0, True], {'ref': 0}]]
+            if j and rng.random() < 0.7: vals.append([[1, True], {'ref': rng.randrange(1, j + 1)}])
+            ops.append({'k': 'create', 'e': 1, 'vals': vals, 'tag': j})
+        keep = sorted(rng.sample(range(1, k + 1), rng.randrange(0, k)))
+        how = rng.choice(['setColl', 'setColl', 'remove', 'setMany'])
+        if how == 'setColl': ops.append({'k': 'setColl', 'o': 0, 'a': [0, False], 'items': keep})
+        elif how == 'remove': ops.append({'k': 'remove', 'o': 0, 'a': [0, False], 'items': [x for x in range(1, k + 1) if x not in keep], 'via': 'list'})
+        else: ops.append({'k': 'setMany', 'o': 0, 'refs': [], 'colls': [[[0, False], keep]]})
+        ops.append({'k': 'add', 'o': 0, 'a': [0, False], 'items': [], 'via': 'list'})
+        check_fixed(ctx, schema, ops, 'cascade-' + how)
+
+
 def run(ctx):
     witnesses(ctx)
     rng = ctx.rng
@@ -936,6 +971,7 @@ def run(ctx):
             check_fixed(ctx, c['schema'], c['ops'], 'corpus:' + f[:-5])
     directed_phase(ctx, rng, ctx.scale(60, 600))
     directed_pk_phase(ctx, rng, ctx.scale(30, 300))
+    directed_cascade_phase(ctx, rng, ctx.scale(30, 300))
     flush_fixed(ctx)
     memory_phase(ctx, rng, ctx.scale(140, 2500), ctx.scale(14, 22))
 
